@@ -24,6 +24,11 @@ def make_case(rng, c, allow_all_outlier=False):
     G = 11
     data = gen.make_data(rng, n, D, G, kind="smooth")
     samples = ["S%d" % i for i in range(D)]
+    if c % 5 == 3:
+        # identifiers outside ASCII (gene symbols with a middle dot, umlauts): more bytes than characters
+        for dp in data:
+            dp.name = "TP53\u00b7p.R%dH_%s" % (175 + dp.idx, dp.name)
+        samples = ["Prim\u00e4rtumor", "Rezidiv\u2082", "M\u00e9tastase"][:D]
     pool = gen.all_forests(n, outliers=bool(c % 2)) if n <= 3 else [
         gen.random_forest(rng, n, p_outlier=0.2 if c % 2 else 0.0) for _ in range(8)]
     if not allow_all_outlier:
@@ -202,8 +207,17 @@ def trace_task(task):
                     if set(files) != {"%s_results_table.tsv" % tid, "%s.nwk" % tid}:
                         part.violation("archive member is incomplete", dict(case, topology=tid, files=sorted(files)))
                         continue
-                    tab = pd.read_csv(io.StringIO(files["%s_results_table.tsv" % tid]), sep="\t", keep_default_na=False)
-                    k = tracegen.table_key(tab, files["%s.nwk" % tid].strip(), data)
+                    try:
+                        tab = pd.read_csv(io.StringIO(files["%s_results_table.tsv" % tid]), sep="\t", keep_default_na=False)
+                        listed = set((str(r["mutation_id"]), str(r["sample_id"])) for _, r in tab.iterrows())
+                        wanted = set((str(dp.name), str(sm)) for dp in data for sm in samples)
+                        if listed != wanted:
+                            raise ValueError("table lists %d (mutation, sample) pairs, the trace has %d" % (len(listed), len(wanted)))
+                        k = tracegen.table_key(tab, files["%s.nwk" % tid].strip(), data)
+                    except (KeyError, ValueError, IndexError) as exc:
+                        part.violation("archive member's table is incomplete or unreadable: the archive does not hold the "
+                                       "requested topology", dict(case, topology=tid, problem=repr(exc)[:200]))
+                        continue
                     if tid in row_keys and k != row_keys[tid]:
                         part.violation("archive member does not describe the tree of its report row",
                                        dict(case, topology=tid, member=gen.key_str(k), row=gen.key_str(row_keys[tid])))
